@@ -67,7 +67,7 @@ def histories(rng, table, vg, n):
 
 
 def run(tier, seed, rng):
-    ng = 50 if tier == 'quick' else 400
+    ng = 50 if tier == 'quick' else 1500
     payload_groups, metas = [], []
     for gid in range(ng):
         g = gen.Gen(rng, dict(defaults=True, regex=(gid % 5 == 0), move=(gid % 3 == 0)))
@@ -134,7 +134,7 @@ class Two(Packet):
         [['new', 'p0', 'Two', {"p": "Two", "f": []}], ['new', 'p1', 'Two', {"p": "Two", "f": []}], ['set', 'p0', ['a', 'xs'], [1, 2]], ['pack', 'p1']],
         [['new', 'p0', 'Cnt', {"p": "Cnt", "f": []}], ['new', 'p1', 'Cnt', {"p": "Cnt", "f": []}], ['set', 'p0', ['n'], 2], ['pack', 'p0'], ['pack', 'p1']],
     ], threads=dict(cls='Two', raws=[bytes([n] + list(range(n)) + [m] + list(range(m))).hex() for n in range(1, 5) for m in range(1, 3)],
-                    rounds=300 if tier == 'quick' else 3000))
+                    rounds=300 if tier == 'quick' else 20000))
     parts = shard(payload_groups, max(1, len(payload_groups) // NPROC + 1))
     payloads = [dict(groups=p) for p in parts] + [dict(groups=[probes])]
     results = run_impl_parallel(os.path.join(VERIF, 'harness', 'impl_world.py'), payloads)
